@@ -60,8 +60,10 @@ func worldCase(env *core.Env, prop string, idx int) (*gen.World, gen.WorldOpts, 
 		o.Elements = 2
 		o.MaxDepth = 1 + rng.Intn(2)
 		o.RefDensity = 0.5
+		o.Chains = rng.Intn(4) == 0
 	} else {
 		rng = core.Rng(env.Seed, prop, idx)
+		o.Chains = rng.Intn(3) == 0
 		o.NDocs = 1 + rng.Intn(5)
 		o.Cyclic = rng.Intn(5) < 3
 		o.Nested = rng.Intn(2) == 0
